@@ -547,7 +547,7 @@ func TestC16(t *testing.T) {
 	close(work)
 	wg.Wait()
 	requireAntecedents(run, "C16/late-edit-invalid")
-	evals = run.Counter("pure_evaluations") + run.Counter("reconcile_specs")
+	evals = run.Counter("pure_evaluations") + run.Counter("reconcile_specs") + run.Counter("late_edits")
 	run.Cov["evaluations"] = evals
 	run.Cov["states"] = evals
 	run.Cov["transitions"] = run.Counter("pure_evaluations")*4 + run.Counter("reconciles")
